@@ -211,6 +211,8 @@ class ECollection(PyEcoreValue):
                  ._set(new_value, update_opposite=False)
 
     def remove(self, value, update_opposite=True):
+        if value not in self:
+            return super().remove(value)  # let the base collection raise
         if self.is_ref:
             self._update_container(None, previous_value=value)
             if update_opposite:
